@@ -39,7 +39,10 @@ def run(ctx):
         base_h.setup_pool()
         base_h.build_some_structure(0.85)
         for _ in range(ln):
-            lookups.edit_step(base_h, rng, WEIGHTS)
+            if rng.random() < 0.15:
+                lookups.burst(base_h, rng)
+            else:
+                lookups.edit_step(base_h, rng, WEIGHTS)
         base = list(base_h.items)
         # fixed battery drawn from the final state
         n0 = len(base_h.items)
